@@ -15,6 +15,7 @@ namespace {
 struct Shape { std::vector<std::string> moves; int nodes = 0, maxDepth = 0, variations = 0, comments = 0, nags = 0; };
 
 const uint8_t* gData; size_t gSize;
+bool gSane = true; // move counters of the current game's start position are in the compared range
 
 // Walk the tree below `gn` (texel side) in parallel with refchess.  Appends a
 // canonical pre-order description (move + child index structure) to out.
@@ -26,7 +27,10 @@ void walk(GameNode& gn, const ref::Pos& r, int depth, std::string& out, Shape& s
         gn.goForward(i);
         ref::Move m = tx::toRef(gn.getMove());
         if (!ref::isLegal(r, m)) fz::oracleFail("game tree contains " + m.uci() + ", illegal in " + ref::toFEN(r), gData, gSize);
-        ref::Pos rn = ref::make(r, m);
+        ref::Pos r0 = r;
+        if (!gSane) { r0.hmc = 0; r0.fmc = 1; } // absurd counters from a FEN tag: keep refchess's own arithmetic defined
+        ref::Pos rn = ref::make(r0, m);
+        if (!gSane) { rn.hmc = gn.getPos().getHalfMoveClock(); rn.fmc = gn.getPos().getFullMoveCounter(); }
         std::string d = tx::diff(gn.getPos(), rn, 0);
         if (!d.empty()) fz::oracleFail("position after " + m.uci() + " from " + ref::toFEN(r) + ": " + d, gData, gSize);
         sh.nodes++;
@@ -52,6 +56,17 @@ extern "C" int LLVMFuzzerTestOneInput(const uint8_t* data, size_t size) {
     fz::tick();
     if (size > 4096) return 0;
     gData = data; gSize = size;
+    if (fz::excludeClocks()) { // approximate pre-scan, only used with the off-by-default switch
+        std::string in((const char*)data, size);
+        for (size_t p = in.find("FEN"); p != std::string::npos; p = in.find("FEN", p + 1)) {
+            size_t q = in.find('"', p), e = q == std::string::npos ? q : in.find('"', q + 1);
+            if (e == std::string::npos) break;
+            try {
+                Position t = TextIO::readFEN(in.substr(q + 1, e - q - 1));
+                if (!fz::clocksSane(t.getHalfMoveClock(), t.getFullMoveCounter())) { fz::rejected(); fz::cls("excluded: absurd move counters (switch)"); return 0; }
+            } catch (...) {}
+        }
+    }
     std::istringstream is(std::string((const char*)data, size));
     PgnReader reader(is);
     int games = 0, errors = 0;
@@ -75,6 +90,7 @@ extern "C" int LLVMFuzzerTestOneInput(const uint8_t* data, size_t size) {
         std::string startFen = TextIO::toFEN(root.getPos());
         ref::Pos r;
         if (!ref::fromFEN(startFen, r)) fz::oracleFail("start position FEN unreadable: " + startFen, data, size);
+        gSane = fz::clocksSane(r.hmc, r.fmc);
         std::string d0 = tx::diff(root.getPos(), r, 0);
         if (!d0.empty()) fz::oracleFail("start position: " + d0, data, size);
         std::string t1;
